@@ -34,7 +34,7 @@ claim("C05", "DESIGN.md 5/C05 and 9", "Lean 4 theorems (shape; equivariance unde
       TB)
 claim("C06", "DESIGN.md 5/C06", "Lean 4 theorems (definitions, algebra, order invariance) + exhaustive-lattice correspondence + reference/algebra oracles",
       "Theorems in MPilot.C06: Or/And cell = max/min of the column; Not negates, is an involution; De Morgan; And <= Union <= Or; xor stays in range; "
-      "selected union with k = all is the mean; Or, And, Union, XOr, SelectedUnion give the same outcome for every input order (all lists, all sizes). "
+      "selected union with k = all is the mean and with k = 1 the greatest (Truest) / least (Falsest) value of the column, i.e. Or / And; Or, And, Union, XOr, SelectedUnion give the same outcome for every input order (all lists, all sizes). "
       "All lattice tuples for <= 3 inputs are enumerated against model and exact reference on every run.",
       TB)
 claim("C07", "DESIGN.md 5/C07", "Lean 4 theorems (cell definitions, commutativity incl. failure, error order) + differential correspondence + reference oracles",
@@ -47,8 +47,9 @@ claim("C07", "DESIGN.md 5/C07", "Lean 4 theorems (cell definitions, commutativit
 claim("C08", "DESIGN.md 5/C08", "Lean 4 theorems (threshold map, inverse, monotonicity, lookup, curve order independence, counterpart equality) + correspondence + mapping oracles",
       "Theorems in MPilot.C08: CvtToFuzzy maps true->+1, false->-1, is the line between and clamped outside, monotone/antitone; CvtFromFuzzy inverts it; "
       "CvtToBinary threshold test; category lookup hit/miss; sorted control points are independent of listing order (curve_perm_invariant); curve flat below the first point; "
-      "each CvtToFuzzy variant is definitionally the clamp of its Normalize counterpart. Interpolation between interior control points and the z-score/mean-to-mid statistics "
-      "are tied by correspondence and reference oracles only: partial.",
+      "each CvtToFuzzy variant is definitionally the clamp of its Normalize counterpart; curveAt_interior / curveAt_above / normalizeCurve_spec: for distinct raw values the sorted control points are strictly "
+      "increasing and every cell lies on the line through the two consecutive points around it (flat beyond the ends), shape and missing cells kept. The z-score/mean-to-mid statistics "
+      "(sqrt is a model parameter) are tied by correspondence and reference oracles only: partial for those.",
       TB + "z-score commands depend on sqrt: model parameter, driver instance = 20-digit rational root; cases within 1e-9 of a data-derived discontinuity are skipped and counted.")
 claim("C09", "DESIGN.md 5/C09", "Lean 4 heap-model theorems (execH_preserves, execH_refines) + before/after snapshots of every live array around every real execute",
       "Heap model execH makes aliasing (single-input Minimum/Maximum/FuzzyOr/FuzzyAnd return the input object) and the in-place clamp explicit. Theorem execH_preserves: one "
